@@ -136,7 +136,8 @@ def tlc(spec_dir, module, cfg=None, workers=4, env=None, timeout=900, simulate=N
     meta = os.path.join(workdir, "meta_%s_%d" % (cfg or module, os.getpid()))
     shutil.rmtree(meta, ignore_errors=True)
     os.makedirs(meta, exist_ok=True)
-    libpath = os.pathsep.join([os.path.join(SPECS, "lib")] + [os.path.join(SPECS, x) for x in libs])
+    libpath = os.pathsep.join([os.path.join(SPECS, x) for x in sorted(os.listdir(SPECS))
+                               if os.path.isdir(os.path.join(SPECS, x))])
     jopts = ["-XX:+UseParallelGC", "-Xss1g", "-Xmx" + xmx, "-DTLA-Library=" + libpath]
     if deque:
         jopts.append("-Dtlc2.tool.queue.IStateQueue=StateDeque")
@@ -205,6 +206,10 @@ def trace_validate(spec_dir, module, trace_path, cfg=None, env=None, timeout=900
     The trace module's POSTCONDITION prints <<"REJECT", json>> with the 1-based index of the first event
     it could not match."""
     e = {"TRACE": trace_path}
+    for k in load_known():
+        # named deviation actions of the trace specs are enabled only for findings listed as open
+        if k.get("status") == "open" and k.get("env"):
+            e[k["env"]] = "1"
     if env:
         e.update(env)
     res = tlc(spec_dir, module, cfg=cfg, workers=workers, env=e, timeout=timeout, deque=True, libs=libs,
@@ -245,6 +250,74 @@ def read_ndjson(path):
 
 def canon_hash(obj):
     return hashlib.sha256(json.dumps(obj, sort_keys=True, separators=(",", ":")).encode()).hexdigest()[:16]
+
+
+def split_cases(evs, marker="reset"):
+    cases, cur = [], None
+    for e in evs:
+        if e["ev"] == marker:
+            cur = [e]
+            cases.append(cur)
+        elif cur is not None:
+            cur.append(e)
+    return cases
+
+
+def validate_cases(ctx, spec_dir, module, path, kind, cfg=None, libs=(), describe=None, timeout=900, _depth=0):
+    """Validate a multi-case trace (cases start with a `reset` event).  On rejection: isolate the case,
+    re-validate it alone (a rejection must be reproducible), report it, then validate the remaining
+    cases so that one rejection does not leave the rest unexamined.  Returns number of cases."""
+    ok, rej, res = trace_validate(spec_dir, module, path, cfg=cfg, libs=libs, timeout=timeout)
+    ctx.add_tlc(res)
+    ctx.note_known_from_tlc(res)
+    cases = split_cases(read_ndjson(path))
+    if _depth == 0:
+        ctx.traces += len(cases)
+    if ok:
+        return len(cases)
+    idx = rej["idx"]
+    pos = 0
+    hit = None
+    for c in cases:
+        if pos < idx <= pos + len(c):
+            hit = c
+            break
+        pos += len(c)
+    if hit is None:
+        raise ToolError("rejected index %d outside every case (%s)" % (idx, module))
+    single = os.path.join(ctx.work, "isolated_%s_%d.ndjson" % (kind, _depth))
+    write_ndjson(single, hit)
+    ok2, rej2, res2 = trace_validate(spec_dir, module, single, cfg=cfg, libs=libs, timeout=timeout)
+    ctx.add_tlc(res2)
+    if ok2:
+        raise ToolError("rejection not reproducible in isolation (%s, event %d)" % (module, idx))
+    rec = {"what": "recorded execution is not a behaviour of %s" % module, "kind": kind,
+           "rejected_event": rej2["event"], "event_index": rej2["idx"],
+           "trace": hit if len(hit) <= 400 else hit[:rej2["idx"] + 1][-400:]}
+    if describe:
+        rec.update(describe(rej2, hit))
+    ctx.violation(rec)
+    rest = [e for c2 in cases if c2 is not hit for e in c2]
+    if rest and _depth < 25:
+        p2 = "%s.rest%d" % (path, _depth)
+        write_ndjson(p2, rest)
+        validate_cases(ctx, spec_dir, module, p2, kind, cfg=cfg, libs=libs, describe=describe, timeout=timeout,
+                       _depth=_depth + 1)
+    return len(cases)
+
+
+def expect_reject(ctx, spec_dir, module, path, mutate, what, cfg=None, libs=()):
+    """B3: a corrupted copy of a trace must be rejected, otherwise the binding is vacuous."""
+    evs = read_ndjson(path)
+    if not mutate(evs):
+        raise ToolError("B3 could not find an event to corrupt in " + path)
+    p2 = path + ".corrupt"
+    write_ndjson(p2, evs)
+    ok, rej, res = trace_validate(spec_dir, module, p2, cfg=cfg, libs=libs)
+    ctx.add_tlc(res)
+    if ok:
+        raise ToolError("B3 self-test failed: corrupted trace accepted (%s, %s)" % (module, what))
+    ctx.extra.setdefault("b3_rejections", []).append({"module": module, "corruption": what, "rejected_at": rej["idx"]})
 
 
 # --------------------------------------------------------------------------------------------
@@ -349,6 +422,18 @@ class Ctx:
             return False
         self.violations.append(record)
         return True
+
+    def note_known_from_tlc(self, res):
+        """<<"KNOWN", {id, idx}>> lines printed by named deviation actions -> KNOWN-FINDING accounting."""
+        for tag, val in res.prints:
+            if tag != "KNOWN":
+                continue
+            ent = [k for k in self.known if k.get("env") == val["id"] and k.get("status") == "open"]
+            if not ent:
+                raise ToolError("deviation action fired for a finding that is not listed as open: %s" % val["id"])
+            k = ent[0]
+            cur = self.known_hits.get(k["id"])
+            self.known_hits[k["id"]] = (k, (cur[1] + 1) if cur else 1)
 
     def finish(self):
         wall = time.time() - self.t0
